@@ -2,7 +2,7 @@
 use std::{cell::Cell, fmt, future::poll_fn, rc::Rc, task::Context, task::Poll};
 
 use ntex_service::{Service, ServiceCtx};
-use ntex_util::{future::join, task::LocalWaker};
+use ntex_util::task::LocalWaker;
 
 /// Trait for types that could be sized
 pub trait SizedRequest {
@@ -48,7 +48,16 @@ where
         if self.publish.get() || self.count.is_available() {
             ctx.ready(&self.service).await
         } else {
-            join(self.count.available(), ctx.ready(&self.service)).await.1
+            // a service that buffers requests releases them when it is asked for
+            // readiness, ask again every time a request completes
+            loop {
+                let completed = self.count.completed();
+                ctx.ready(&self.service).await?;
+                if self.count.is_available() {
+                    return Ok(());
+                }
+                self.count.wait_completed(completed).await;
+            }
         }
     }
 
@@ -80,6 +89,7 @@ struct CounterInner {
     cur_cap: Cell<u16>,
     max_size: usize,
     cur_size: Cell<usize>,
+    completed: Cell<usize>,
     task: LocalWaker,
 }
 
@@ -90,6 +100,7 @@ impl Counter {
             max_size,
             cur_cap: Cell::new(0),
             cur_size: Cell::new(0),
+            completed: Cell::new(0),
             task: LocalWaker::new(),
         }))
     }
@@ -103,9 +114,15 @@ impl Counter {
             && (self.0.max_size == 0 || self.0.cur_size.get() <= self.0.max_size)
     }
 
-    async fn available(&self) {
+    /// Number of completed requests
+    fn completed(&self) -> usize {
+        self.0.completed.get()
+    }
+
+    /// Wait until capacity is available or a request completes
+    async fn wait_completed(&self, completed: usize) {
         poll_fn(|cx| {
-            if self.0.available(cx) {
+            if self.0.available(cx) || self.0.completed.get() != completed {
                 Poll::Ready(())
             } else {
                 Poll::Pending
@@ -151,10 +168,9 @@ impl CounterInner {
         let cur_size = self.cur_size.get();
         let new_size = cur_size - (size as usize);
         self.cur_size.set(new_size);
+        self.completed.set(self.completed.get().wrapping_add(1));
 
-        if num == self.max_cap || (cur_size > self.max_size && new_size <= self.max_size) {
-            self.task.wake();
-        }
+        self.task.wake();
     }
 
     fn available(&self, cx: &Context<'_>) -> bool {
